@@ -379,51 +379,79 @@ def _r5(ctx):
 
 
 def _r6(ctx):
+    """decided on the symbolic state at the end of the update method: a decision table over 'the load increases'"""
     prog = ctx.prog
     ctx.rule("R-C05-6", floor=2, what="running strain extremes: max on load increase, min otherwise, against the current strain")
+    from ..absint import Interp, TermDomain, term_select, term_walk
     f = prog.func(D + "_hcm_update_min_max_strain_values")
-    br = [s for s in f.node.body if isinstance(s, ast.If)]
-    if len(br) != 1:
-        raise AnalysisError("_hcm_update_min_max_strain_values: branch not found")
-    b = br[0]
-    t = b.test
-    inc = isinstance(t, ast.Compare) and isinstance(t.ops[0], ast.Lt) and norm_text(t.left) == "previous_load" and \
-        "current_load_representative" in norm_text(t.comparators[0])
+    params = [q for q in f.params if q != "self"]
+    prev = next((q for q in params if "previous" in q), None)
+    cur = next((q for q in params if "current_load" in q), None)
+    pt = next((q for q in params if "point" in q), None)
+    if not (prev and cur and pt):
+        raise AnalysisError("_hcm_update_min_max_strain_values: parameters (previous load, current load, current point) not found")
+    it = Interp(prog, TermDomain(), single_exit=True, follow=lambda c_: False)
+    it.run(f, [("p", q) for q in params])
+    if len(it.exits) != 1:
+        raise AnalysisError("_hcm_update_min_max_strain_values: several exits")
+    st = it.exits[0][1]
 
-    def side(block, attr, op, fn):
-        stores = [s for s in block if isinstance(s, ast.Assign) and is_self_attr(s.targets[0])]
-        if len(stores) != 1 or stores[0].targets[0].attr != attr:
-            return False, stores
-        srcs = [stores[0].value] + [s.value for s in block if isinstance(s, ast.Assign) and isinstance(s.targets[0], ast.Name)
-                                    and s.targets[0].id in names_in(stores[0].value)]
-        cur = None
-        for e in srcs:
-            for n in ast.walk(e):
-                # scalar form: old if old <op> current else current
-                if isinstance(n, ast.IfExp) and is_self_attr(n.body, attr) and isinstance(n.test, ast.Compare) and \
-                        isinstance(n.test.ops[0], op) and norm_text(n.test.left).startswith("self.%s" % attr) and \
-                        norm_text(n.test.comparators[0]).startswith(norm_text(n.orelse)) and \
-                        isinstance(n.orelse, ast.Attribute) and n.orelse.attr == "strain":
-                    cur = n.orelse
-                # element-wise form: np.maximum / np.minimum (old, current)
-                if isinstance(n, ast.Call) and call_name(n) == fn and len(n.args) == 2:
-                    olds = [a for a in n.args if any(is_self_attr(x, attr) for x in ast.walk(a))]
-                    curs = [x for a in n.args if a not in olds for x in ast.walk(a) if isinstance(x, ast.Attribute) and x.attr == "strain"]
-                    if len(olds) == 1 and len(curs) == 1:
-                        cur = curs[0]
-        pt = [q for q in f.params if "point" in q]
-        ok = cur is not None and isinstance(cur.value, ast.Name) and cur.value.id in f.params
-        return ok, stores
-    ok1, s1 = side(b.body, "_epsilon_max_LF", ast.Gt, "np.maximum")
-    ok2, s2 = side(b.orelse, "_epsilon_min_LF", ast.Lt, "np.minimum")
-    if inc and ok1:
-        ctx.holds(f, s1[0], "load increases: eps_max_LF = max(eps_max_LF, current strain)")
+    def mentions(t, name):
+        return any(x == ("p", name) for x in term_walk(t))
+
+    def num(t, vals):
+        """numeric value of an arithmetic term over the two loads (None: not arithmetic over them)"""
+        if isinstance(t, tuple) and t:
+            if t[0] == "c" and isinstance(t[1], (int, float)) and not isinstance(t[1], bool):
+                return float(t[1])
+            if t[0] == "p" and t[1] in vals:
+                return vals[t[1]]
+            if t[0] == "op" and t[1] in ("+", "-", "*"):
+                a_, b_ = num(t[2], vals), num(t[3], vals)
+                if a_ is None or b_ is None:
+                    return None
+                return a_ + b_ if t[1] == "+" else (a_ - b_ if t[1] == "-" else a_ * b_)
+            if t[0] == "u" and t[1] == "usub":
+                a_ = num(t[2], vals)
+                return None if a_ is None else -a_
+        return None
+
+    def truth_for(increasing):
+        vals = {prev: 0.0, cur: 1.0} if increasing else {prev: 1.0, cur: 0.0}     # a clear increase / a clear decrease
+
+        def truth(c):
+            if isinstance(c, tuple) and len(c) == 4 and c[0] == "cmp" and c[1] in ("lt", "le") and \
+                    (mentions(c[2], prev) or mentions(c[3], prev)) and (mentions(c[2], cur) or mentions(c[3], cur)):
+                a_, b_ = num(c[2], vals), num(c[3], vals)
+                if a_ is not None and b_ is not None:
+                    return a_ < b_ if c[1] == "lt" else a_ <= b_
+            return None
+        return truth
+    strain = ("attr", ("p", pt), "strain")
+
+    def is_extreme(t, fn, attr):
+        """Series / array of fn(old extreme, current strain)"""
+        for x in term_walk(t):
+            if isinstance(x, tuple) and x and x[0] == "call" and x[1] == fn and len(x[2]) == 2 and \
+                    set(x[2]) == {("self", attr), strain}:
+                return True
+        return False
+    rows = []
+    for increasing in (True, False):
+        mx = term_select(st.get("self._epsilon_max_LF", ("self", "_epsilon_max_LF")), truth_for(increasing))
+        mn = term_select(st.get("self._epsilon_min_LF", ("self", "_epsilon_min_LF")), truth_for(increasing))
+        if mx is None or mn is None:
+            raise AnalysisError("_hcm_update_min_max_strain_values: the case analysis on the load direction was not understood")
+        rows.append((increasing, mx, mn))
+    (_, mx_i, mn_i), (_, mx_d, mn_d) = rows
+    if is_extreme(mx_i, "np.maximum", "_epsilon_max_LF") and mn_i == ("self", "_epsilon_min_LF"):
+        ctx.holds(f, f.node, "load increases: eps_max_LF = max(eps_max_LF, current strain), eps_min_LF unchanged")
     else:
-        ctx.violated(f, b, "on a load increase the running strain maximum is not max(old, current strain)", text="max side")
-    if inc and ok2:
-        ctx.holds(f, s2[0], "load decreases: eps_min_LF = min(eps_min_LF, current strain)")
+        ctx.violated(f, f.node, "on a load increase the running strain maximum is not max(old, current strain)", text="max side")
+    if is_extreme(mn_d, "np.minimum", "_epsilon_min_LF") and mx_d == ("self", "_epsilon_max_LF"):
+        ctx.holds(f, f.node, "load decreases: eps_min_LF = min(eps_min_LF, current strain), eps_max_LF unchanged")
     else:
-        ctx.violated(f, b, "on a load decrease the running strain minimum is not min(old, current strain)", text="min side")
+        ctx.violated(f, f.node, "on a load decrease the running strain minimum is not min(old, current strain)", text="min side")
 
 
 def _r7(ctx):
